@@ -106,7 +106,10 @@ overflow-checks = false
 [lints.rust]
 unexpected_cfgs = {{ level = "allow" }}
 """)
-    shutil.copy(os.path.join(REPO, "Cargo.lock"), os.path.join(sc.crate, "Cargo.lock"))
+    lock = os.path.join(REPO, "Cargo.lock")
+    if not os.path.exists(lock):  # a snapshot of the repository without untracked files
+        lock = "/repo/Cargo.lock"
+    shutil.copy(lock, os.path.join(sc.crate, "Cargo.lock"))
     with open(os.path.join(sc.crate, ".cargo", "config.toml"), "w") as f:
         f.write("[net]\noffline = true\n")
     with open(os.path.join(sc.crate, "src", "lib.rs"), "w") as f:
